@@ -390,6 +390,25 @@ non-trivial = payload non-empty and one of {>=2 deflate blocks, >=2 segments, a 
                         }
                     }
                 },
+                Consumed::Json(r) => {
+                    if let Ok(wantv) = serde_json::from_slice::<serde_json::Value>(want) {
+                        match r {
+                            Ok(v) => {
+                                if damaged && !ambiguous_empty {
+                                    return Outcome::fail(format!("C06:helper-ok-on-damage:{cname}"), "json() returned Ok for a damaged stream".to_string());
+                                }
+                                if v != wantv {
+                                    return Outcome::fail(format!("C06:body-mismatch:{cname}"), "json differs".to_string());
+                                }
+                            }
+                            Err(e) => {
+                                if !damaged {
+                                    return Outcome::fail(format!("C06:read-error:{cname}"), format!("json() failed on undamaged body: {e}"));
+                                }
+                            }
+                        }
+                    }
+                }
             }
         }
         let gz_fields = case.coding == Coding::Gzip && (case.gz.fextra.is_some() || case.gz.fname || case.gz.fcomment || case.gz.fhcrc);
